@@ -31,7 +31,9 @@ ULPS = 4
 RT_TOL = 1e-10
 
 SET_OPS = [['dr', 0.05], ['dr', 0.1], ['dr', 0.3], ['dk', 0.05], ['dk', 0.2],
-           ['length', 7], ['length', 16], ['length', 17], ['length', 100]]
+           ['length', 7], ['length', 16], ['length', 17], ['length', 100],
+           # values that differ from another member (or from a start value) by a few parts in 1e6: a nudge, not a no-op
+           ['dr', 0.1000004], ['dk', 0.1999988], ['dr', 0.25000075]]
 STARTS = [['dr', 0.1, 16], ['dk', 0.2, 16], ['dr', 0.25, 9]]
 
 
@@ -124,6 +126,34 @@ def check_domain(d, how, full=True):
                     how, w, nm, float(np.max(np.abs(a - c))), float(64 * np.finfo(float).eps * np.max(bd)))))
         if pr:
             return pr
+    # (i) the same numbers handed over as float32 / int / list give the same result as float64 input;
+    # (ii) a caller re-using one buffer: transform X, scale X in place by 2, transform X again -> exactly twice
+    #      the first result, and the array returned first is still what it was (results do not alias each other)
+    x = np.arange(1, L + 1, dtype=float)
+    v32 = (np.exp(-x / (0.3 * L + 1.0)) * np.cos(0.7 * x)).astype(np.float32)
+    vint = ((np.arange(L) * 7) % 5 - 2).astype(np.int64)
+    for which in (0, 1):
+        fn = d.to_fourier if which == 0 else d.to_real
+        nm = fn.__name__
+        for label, arr in (('float32', v32), ('int64', vint), ('list', [float(t) for t in vint])):
+            want = fn(np.asarray(arr, dtype=np.float64))
+            got = np.asarray(fn(arr))
+            sc = max(1e-300, float(np.max(np.abs(want))))
+            if got.shape != want.shape or float(np.max(np.abs(got - want))) > 1e-13 * sc:
+                pr.append(('dtype', '%s: %s of %s input differs from the same numbers as float64 by %.3g (relative)'
+                           % (how, nm, label, float(np.max(np.abs(got - want))) / sc if got.shape == want.shape else float('nan'))))
+        X = np.asarray(v32, dtype=np.float64).copy()
+        R1 = fn(X)
+        R1_snap = np.array(R1, copy=True)
+        X *= 2.0
+        R2 = fn(X)
+        if not np.array_equal(np.asarray(R2), 2.0 * R1_snap):
+            pr.append(('buffer', '%s: %s(X) after scaling X in place by 2 is not exactly twice the first result (max dev %.3g)'
+                       % (how, nm, float(np.max(np.abs(np.asarray(R2) - 2.0 * R1_snap))))))
+        if not np.array_equal(np.asarray(R1), R1_snap):
+            pr.append(('buffer', '%s: the array returned by the first %s call changed when %s was called again' % (how, nm, nm)))
+    if pr:
+        return pr
     # linearity on pairs
     names = [nm for nm, _ in vs]
     vd = dict(vs)
@@ -250,8 +280,10 @@ def case_marray(rec, case):
         rec.count('skipped_preconditions')
         return
     probs = []
-    for direction in ('to_fourier', 'to_real'):
-        src = S.Real if direction == 'to_fourier' else S.Fourier
+    for direction, src in (('to_fourier', S.Real), ('to_real', S.Fourier), ('to_fourier', S.NonSpatial), ('to_real', S.NonSpatial),
+                           ('to_fourier', None), ('to_real', None)):
+        # an array that carries no spatial flag (NonSpatial, or None as IdentityMatrixArray defaults to) is
+        # transformed like any other and comes back flagged with the target space
         dst_ = S.Fourier if direction == 'to_fourier' else S.Real
         fn = d.MatrixArray_to_fourier if direction == 'to_fourier' else d.MatrixArray_to_real
         one = d.to_fourier if direction == 'to_fourier' else d.to_real
@@ -260,11 +292,11 @@ def case_marray(rec, case):
         try:
             ret = fn(M)
         except Exception as e:
-            probs.append(('marray', 'MatrixArray_%s raised %s on a %s array of rank %d: %s' % (direction, type(e).__name__, src.name, rank, str(e)[:80])))
+            probs.append(('marray', 'MatrixArray_%s raised %s on a %s array of rank %d: %s' % (direction, type(e).__name__, getattr(src, 'name', 'None'), rank, str(e)[:80])))
             continue
         rec.trans()
         if M.space != dst_:
-            probs.append(('marray', 'MatrixArray_%s did not flip the space flag (rank %d)' % (direction, rank)))
+            probs.append(('marray', 'MatrixArray_%s of a %s array did not set the space flag to %s (rank %d)' % (direction, getattr(src, 'name', 'None'), dst_.name, rank)))
         for i in range(rank):
             for j in range(rank):
                 want = one(orig[:, i, j])
@@ -292,8 +324,10 @@ def case_marray(rec, case):
             probs.append(('marray', 'transforming back after MatrixArray_%s raised %s (rank %d): %s' % (direction, type(e).__name__, rank, str(e)[:80])))
             continue
         sc = float(np.max(np.abs(orig)))
-        if float(np.max(np.abs(M.data - orig))) > RT_TOL * sc or M.space != src:
-            probs.append(('marray', 'MatrixArray round trip starting with %s is not the identity (rank %d)' % (direction, rank)))
+        back_flag = src if src in (S.Real, S.Fourier) else (S.Real if direction == 'to_fourier' else S.Fourier)
+        if float(np.max(np.abs(M.data - orig))) > RT_TOL * sc or M.space != back_flag:
+            probs.append(('marray', 'MatrixArray round trip starting with %s on a %s array is not the identity / not flagged %s (rank %d)'
+                          % (direction, getattr(src, 'name', 'None'), back_flag.name, rank)))
         rec.outcome(core.digest([direction, rank, L, snap[:3]], 9))
     rec.state()
     rec.trace()
